@@ -71,7 +71,7 @@ func (p *Pollard) GetTreeRows() uint8 {
 // the hash is not the hash of a leaf or if the hash wasn't found in the accumulator.
 func (p *Pollard) GetLeafPosition(hash Hash) (uint64, bool) {
 	polNode, found := p.NodeMap[hash.mini()]
-	if !found {
+	if !found || polNode.data != hash {
 		return 0, false
 	}
 
